@@ -135,9 +135,15 @@ func (r *recProcessor) rec(op string, rs *rulecfg.RuleSet, err error) error {
 	return err
 }
 
-func (r *recProcessor) OnCreated(rs *rulecfg.RuleSet) error { return r.rec("created", rs, r.inner.OnCreated(rs)) }
-func (r *recProcessor) OnUpdated(rs *rulecfg.RuleSet) error { return r.rec("updated", rs, r.inner.OnUpdated(rs)) }
-func (r *recProcessor) OnDeleted(rs *rulecfg.RuleSet) error { return r.rec("deleted", rs, r.inner.OnDeleted(rs)) }
+func (r *recProcessor) OnCreated(rs *rulecfg.RuleSet) error {
+	return r.rec("created", rs, r.inner.OnCreated(rs))
+}
+func (r *recProcessor) OnUpdated(rs *rulecfg.RuleSet) error {
+	return r.rec("updated", rs, r.inner.OnUpdated(rs))
+}
+func (r *recProcessor) OnDeleted(rs *rulecfg.RuleSet) error {
+	return r.rec("deleted", rs, r.inner.OnDeleted(rs))
+}
 
 func (r *recProcessor) take() []call {
 	r.mu.Lock()
